@@ -153,9 +153,17 @@ def run_method(case):
     for p in parts[:-1]:
         obj = getattr(obj, p)
     fn = getattr(obj, parts[-1])
+    args = []
+    for a in case.get('args', []):
+        if isinstance(a, list) and a and a[0] == 'dabort':
+            from armulator.armv6.arm_exceptions import DataAbortException
+            from armulator.armv6.enums import DAbort
+            args.append(DataAbortException(DAbort(a[1]), bool(a[2])))
+        else:
+            args.append(a)
     try:
         with contextlib.redirect_stdout(io.StringIO()):
-            r = fn(*case.get('args', []))
+            r = fn(*args)
     except Exception as e:  # noqa
         return implrun.exn_enc(e) + ([] if case.get('_only_result') else dump(arm))
     try:
